@@ -23,6 +23,8 @@ class RefUL(object):
         self.artim = False
         self.transport = False
         self.history = []
+        self.now = 0                # model time (seconds); advanced by the harness
+        self.artim_start = None     # instant of the last ARTIM start / restart while it is running
         if not requestor:
             # the acceptor's machine starts with a transport connection indication
             self.transport = True
@@ -57,11 +59,19 @@ class RefUL(object):
             self.transport = False
         if timer in ('start', 'restart'):
             self.artim = True
+            self.artim_start = self.now
         elif timer == 'stop':
             self.artim = False
+            self.artim_start = None
         self.state = nxt
         self.history.append((evt, act))
         return sent, indicated
+
+    def elapsed_after(self, dt):
+        """seconds the ARTIM timer will have been running once the clock has advanced by dt (None: not running)"""
+        if not self.artim:
+            return None
+        return self.now + dt - self.artim_start
 
     def legal_user(self, prim_type):
         """may the local user issue this primitive now? (the cell is defined)"""
